@@ -5,7 +5,7 @@ Property theorems only (helper lemmas: `NumqiProofs/MatrixSpaceLemmas.lean`, `Ma
 All statements are about the constants of `NumqiModel/MatrixSpace.lean` that `Driver/C20.lean` executes and about
 the comparison operators regenerated from the source (`NumqiModel/Generated/Thresholds20.lean`).
 External routines enter as hypotheses ("contracts"): svd/eigh (orthonormal output), eigvalsh/eigsh (Rayleigh bound),
-`minimize_scalar` (returns a value of its objective), `scipy.linalg.lu` (a zero pivot for a singular matrix).
+`minimize_scalar` (returns a value of its objective), `eigvalsh` of the Gram matrix (0 for a singular PSD matrix).
 -/
 import NumqiProofs.MatrixSpaceLemmas
 import NumqiProofs.MatrixSpaceMinors
@@ -214,8 +214,9 @@ theorem rankOneCert_default_slack_pos :
     rankOneCertEpsNeg = false ∧ 0 < (rankOneCertEpsNum : ℚ) / rankOneCertEpsDen := by
   refine ⟨rfl, ?_⟩; norm_num [rankOneCertEpsNum, rankOneCertEpsDen]
 
-/-- **the LU certificates are sound up to their slack**: a linearly dependent family has a singular Gram matrix, the exact
-`min |diag U|` is 0 (LU contract), so a computed value within `δ ≤ zero_eps` of it does not certify. -/
+/-- **the Gram-matrix certificates are sound up to their slack**: a linearly dependent family has a singular positive
+semidefinite Gram matrix, the exact measured quantity (its smallest eigenvalue, `eigvalsh` contract) is 0, so a computed value
+within `δ ≤ zero_eps` of it does not certify. -/
 theorem hierarchyCert_sound (computed δ zero_eps : ℝ) (hround : |computed - 0| ≤ δ) (hslack : δ ≤ zero_eps) :
     hierarchyCert computed zero_eps = false ∧ abcCert computed zero_eps = false := by
   have := abs_le.1 hround
@@ -304,7 +305,7 @@ theorem sortedIndex_spec {q N : ℕ} (t : Fin q → Fin N) :
 combination `M = Σ_i c_i S_i` has rank `≤ r` — it factors as `X·Y` through `r` columns — and `q = r+1 ≤ 5`, then on every
 choice of `q` rows and `q` columns the vectors of the linear system of `has_rank_hierarchical_method(S, rank = q, k = 1)` satisfy
 the linear relation above.  Hence the Gram matrix `matAAT` is singular whenever the subspace contains a non-zero element of
-rank `< rank`; with the LU contract and `hierarchyCert_sound` the positive answer is not issued. -/
+rank `< rank`; with the `eigvalsh` contract and `hierarchyCert_sound` the positive answer is not issued. -/
 theorem hierarchy_sound_k1_le_five {K : Type} [Field K] {q r N dA dB : ℕ} (hr : r < q) (h5 : q ≤ 5)
     (c : Fin N → K) (mats : ℕ → ℕ → ℕ → K)
     (X : ℕ → Fin r → K) (Y : Fin r → ℕ → K)
